@@ -193,6 +193,18 @@ func init() {
 // faults of the given kinds on the calls selected by on.
 func faultPhase(rep *explore.Report, prop string, kinds []string, on func(c *world.Call) bool, deadline time.Time) {
 	seeds := c09Seeds(false)
+	// the same populations with a status that lags behind the spec (generation not yet observed, counters zero)
+	{
+		w := world.New()
+		for _, pol := range []string{"OrderedReady", "Parallel"} {
+			for _, h := range []history{histories[0], histories[1]} {
+				for _, cells := range [][]gen.Cell{{gen.ReadyAt(0), gen.ReadyAt(0), gen.Absent}, {gen.ReadyAt(0), gen.Absent, gen.Absent}, {gen.ReadyAt(0), gen.ReadyAt(len(h.Revs) - 1), gen.ReadyAt(0)}} {
+					sc := gen.Scenario{Spec: gen.Spec{Name: "web", Replicas: 2, Policy: pol, Strategy: gen.RU(0), Limit: 10, Template: h.Tmpl}, Revs: h.Revs, Cur: h.Cur, Cells: cells, StaleStatus: true}
+					seeds = append(seeds, explore.Seed{Label: sc.String(), State: sc.Build(w)})
+				}
+			}
+		}
+	}
 	cfg := explore.SearchCfg{Prop: prop, D: 1, FaultKinds: kinds, FaultOn: on, Judge: monitorOf(prop), Deadline: deadline}
 	sub := explore.NewReport(prop, "model_checking")
 	g := explore.Search(sub, cfg, seeds)
